@@ -27,7 +27,11 @@ def parse_dot(src: str):
             has_ports = all(ports) and len(cells) > 0
             if has_ports and [p.group(1) for p in ports] != [f"p{i}" for i in range(len(cells))]:
                 has_ports = "misnumbered"
-            nodes.append([m.group(1).strip('"'), [c for _, c in cells], has_ports])
+            # a decay line without daughters is drawn with one empty cell (a row without a cell is not valid)
+            shown = [c for _, c in cells]
+            if shown == [""]:
+                shown, has_ports = [], False
+            nodes.append([m.group(1).strip('"'), shown, has_ports])
     return nodes, edges
 
 
